@@ -32,7 +32,7 @@ CLAIMS = {
    "The four back-end files (all code that differs between the builds) run as real code; the build configuration itself is simulated (run-time switch instead of build tags), so what a CGO_ENABLED=0 linker or a missing system library does is not covered. Sampled, not exhaustive."),
  "C07": ("stream-sim", "exploration", "7.7",
    "deterministic simulation with fault injection: each compressor implementation (cgo and pure-Go back ends in one binary) driven as stateful stream code by a seeded history of Compress/Decompress/SetLevel calls with scratch buffers of drawn length/capacity and dirty contents, destination writers that fail after j bytes and source readers with short reads, errors and EOF mid-block; round-trip oracle incl. the call after a failed call",
-   "One long-lived instance per run (lz4/zstd x cgo/pure Go, null; default or drawn level) receives 4-16 calls: inputs of 0 B-600 KiB (zeros, text, incompressible, mixed, sparse), scratch buffers nil / empty with capacity / len 8192 (the storage layer's) / shorter than the input / longer than any output / reused, writers failing after j bytes, readers with short read / error / EOF mid-block. Checked: reported count = bytes that reached the writer (also on failure), a writer error is reported, input unmodified, every fault-free frame decodes to the input on the same instance, a second long-lived instance and a fresh one (with dirty in/out buffers, nothing written beyond len(out)), a read fault yields an error or correct data and leaves the instance usable, all frames decode at the end.",
+   "One long-lived instance per run (lz4/zstd x cgo/pure Go, null; default or drawn level) receives 4-16 calls: inputs of 0 B-600 KiB (zeros, text, incompressible, mixed, sparse), scratch buffers nil / empty with capacity / len 8192 cap 16384 (the storage layer's) / capacity just above the input length / shorter than the input / longer than any output / reused, writers failing after j bytes, readers with short read / error / EOF mid-block. Checked: reported count = bytes that reached the writer (also on failure), a writer error is reported, input unmodified, every fault-free frame decodes to the input on the same instance, a second long-lived instance and a fresh one (with dirty in/out buffers, nothing written beyond len(out)), a read fault yields an error or correct data and leaves the instance usable, all frames decode at the end.",
    "The input space is sampled (the property quantifies over all inputs up to several hundred KiB). A crash of the process in C code (signal) is attributed to the run by the driver and reported as process-crash."),
  "C03": ("store-sim", "exploration", "7.3",
    "deterministic simulation: seeded write histories with a jumping clock (non-monotone stamps, huge gaps, extreme counts) checked accepted=>reopens equal / rejected=>unchanged, plus torn and damaged metadata images fed to every reader entry point",
